@@ -31,7 +31,7 @@ ASSUMPTIONS = ["repeatability is only claimed (and checked) for single-process r
                "uniqueness of samples is checked on the Forward payoff (strictly monotone, continuous): bit-equal stored values mean shared variates",
                "each run is a subprocess with a 300 s time-out; a time-out is inconclusive"]
 REQUIRED_COUNTERS = ["fresh_interpreter_repeats", "in_process_repeats", "seed_audits", "seedings_observed", "tagged_rows_consumed",
-                     "multi_worker_runs", "duplicate_value_scans"]
+                     "multi_worker_runs", "duplicate_value_scans", "seedings_observed_across_processes"]
 MIN_NONTRIVIAL = {"quick": 12, "thorough": 60}
 SHARD_TIMEOUT = {"quick": 1500, "thorough": 7200}
 
@@ -154,7 +154,7 @@ def run_case(case, R):
                         f"into a state installed earlier in the same run after variates had been drawn from it (e.g. {reuse[0]}; "
                         f"{len(audit.events)} seedings in the run)", wit)
         # black-box: equal stored samples across levels / passes
-        _dups(R, out["levels"], tag, run, wit)
+        _dups(R, out["fine"], tag, run, wit)
         if sum(len(x) for x in out["levels"]) >= 8:
             R.nontrivial_case(mon, run)
     else:
@@ -173,6 +173,10 @@ def run_case(case, R):
                 pass
         if run["workers"] > 1:
             R.hit("multi_worker_runs")
+        seedings = [e for e in events if e["kind"] == "seeding"]
+        events = [e for e in events if e["kind"] != "seeding"]
+        R.hit("seedings_observed_across_processes", len(seedings))
+        _cross_process_seed_audit(R, seedings, tag, run, wit)
         R.hit("tagged_rows_consumed", len(events))
         cnt = Counter((e["kind"], e["uid"]) for e in events)
         dup = {k: c for k, c in cnt.items() if c > 1}
@@ -182,24 +186,44 @@ def run_case(case, R):
             mode = "single-process" if run["workers"] == 1 else "worker-pool"
             R.violation(f"pre-drawn-variates-consumed-more-than-once-{mode}-{run['engine']}", f"{tag}, {run['workers']} process(es), {run['paths']} paths: "
                         f"{len(events)} consumptions of only {len(cnt)} distinct pre-drawn rows ({kind} row {uid} consumed {c} times, by {pids} process(es))", wit)
-        _dups(R, out["levels"], tag, run, wit)
+        _dups(R, out["fine"], tag, run, wit)
         if sum(out["n"]) >= 8:
             R.nontrivial_case(mon, run)
     if case["monitor"] == "exactly-once" and run["workers"] == 2 and run["process"] == "bs":
         R.sample({"monitor": mon, "run": run})
 
 
-def _dups(R, levels, tag, run, wit):
+def _dups(R, fine_levels, tag, run, wit):
+    """bit-equal stored payoffs of the fine process inside one level (every model used here has a Brownian component and the Forward
+    payoff is strictly monotone, so two samples are bit-equal only if they were generated from the same variates)"""
     R.hit("duplicate_value_scans")
-    allv = np.concatenate([np.asarray(a, dtype=float).reshape(-1) for a in levels]) if levels else np.zeros(0)
-    # multilevel arrays interleave (fine, coarse); level 0 stores coarse = 0: ignore exact zeros
-    vals = allv[allv != 0.0]
-    cnt = Counter(vals.tolist())
-    dup = [v for v, c in cnt.items() if c > 1]
-    if dup and run["process"] in ("bs", "hem", "merton"):
-        mode = "single-process" if run["workers"] == 1 else "worker-pool"
-        R.violation(f"bit-equal-samples-{mode}-{run['engine']}", f"{tag}, {run['workers']} process(es): {len(vals)} stored samples contain only "
-                    f"{len(cnt)} distinct values (e.g. {dup[0]!r} appears {cnt[dup[0]]} times)", wit)
+    mode = "single-process" if run["workers"] == 1 else "worker-pool"
+    for l, a in enumerate(fine_levels):
+        vals = np.asarray(a, dtype=float).reshape(-1)
+        cnt = Counter(vals.tolist())
+        dup = [v for v, c in cnt.items() if c > 1]
+        if dup:
+            R.violation(f"bit-equal-samples-{mode}-{run['engine']}", f"{tag}, {run['workers']} process(es), level {l}: {len(vals)} stored samples contain only "
+                        f"{len(cnt)} distinct values (e.g. {dup[0]!r} appears {cnt[dup[0]]} times)", wit)
+            return
+
+
+def _cross_process_seed_audit(R, seedings, tag, run, wit):
+    """the same generator state installed more than once in a run (by any process): the samples drawn after the two seedings share
+    their variates.  A re-seeding to the very state the generator is already in (nothing drawn in between) is harmless and ignored."""
+    for gen in ("numpy", "random"):
+        seen = {}
+        for i, e in enumerate(x for x in seedings if x["gen"] == gen):
+            if e["after"] in seen:
+                first = seen[e["after"]]
+                if first["pid"] == e["pid"] and e["before"] == e["after"]:
+                    continue
+                mode = "single-process" if run["workers"] == 1 else "worker-pool"
+                R.violation(f"generator-reseeded-to-a-state-that-already-produced-samples-{run['engine']}-{mode}", f"{tag}, {run['workers']} process(es): the {gen} "
+                            f"generator was put into the same state twice during one run (seeding number {i}, pid {e['pid']}; first by pid {first['pid']}; "
+                            f"{len(seedings)} seedings recorded in {len({x['pid'] for x in seedings})} process(es))", wit)
+                return
+            seen[e["after"]] = e
 
 
 def _first_diff(la, lb):
